@@ -144,8 +144,8 @@ RULE = ('E1: breadth-first search over histories of assignments '
         'assignment nested in a callback, assignment while disabled, '
         'notification delivered by a later operation, release interrupted '
         'by a listener / by an exception / resumed, falsy listener, '
-        'listener dropped / removed / added during delivery, the other transform enabled or cleared '
-        'while notifications are pending, clear() of a transform holding '
+        'listener dropped / removed / added during delivery, the other '
+        'transform enabled or cleared while notifications are pending, clear() of a transform holding '
         'assigned values).')
 
 EVENTS = ('on_position_change', 'on_rotation_change', 'on_scale_change')
@@ -1871,11 +1871,18 @@ def run_deferred_case(case):
         if pauser.fired != fired_before and mode == 'raise':
             # the notification during which the listener raised: whoever had
             # not been served yet is owed nothing for it (statement silent)
+            # (which listeners these are depends on the order the
+            # dispatcher serves them in; they are counted like the served
+            # ones so that the evidence does not depend on that order)
             for pos in pauser.raised_at:
                 a = matched[pos]
-                if a['must'] - a['told']:
-                    hits['listeners_unserved_behind_raising_listener'] += 1
+                for k in sorted(a['must'] - a['told']):
+                    a.setdefault('excused', set()).add(k)
+                    hits['notification_delivered_later' if a['step'] != step
+                         else 'listener_notified'] += 1
+                    n_calls += 1
                 a['must'] = a['must'] & a['told']
+                hits['notification_cut_short_by_raising_listener'] += 1
             left = sum(1 for a in assigns
                        if a['i'] == 0 and a['must'] - a['told'])
             if verb == 'on' and raised:
@@ -1930,6 +1937,8 @@ def run_deferred_case(case):
                     continue
                 if a.get('overtook'):
                     continue
+                hits['last_notification_checked'] += len(
+                    a.get('excused', set()) & reg[j])
                 for k in sorted(a['must'] & reg[j]):
                     last = last_told.get((k, p))
                     if last is not a:
@@ -2191,7 +2200,10 @@ def run(tier, rep):
         'notification) at its j-th notification.  The statement is silent '
         'about raising listeners, so: the exception may reach the caller of '
         'the assignment / of dispatch_enabled = True or not; the listeners '
-        'that had not been served for THAT notification are owed nothing; '
+        'that had not been served for THAT notification are owed nothing '
+        '(which ones these are depends on the serving order of the '
+        'dispatcher; the evidence counts them like served ones so that the '
+        'counters do not depend on that order); '
         'a write of dispatch_enabled = True that raised does not count as '
         '"the harness knows that t0 dispatches"; an assignment made after '
         'such a write (desper dispatches, older notifications of the same '
@@ -2261,9 +2273,7 @@ def run(tier, rep):
                      release_interrupted_by_exception_two_or_more_left=1,
                      release_resumed_after_exception=1,
                      listener_raised_in_direct_notification=1,
-                     # (listeners_unserved_behind_raising_listener depends on
-                     # the order the dispatcher serves its listeners in: not
-                     # required)
+                     notification_cut_short_by_raising_listener=1,
                      **{f'reentrant_{d}d_{p}': 1 for d in (2, 3)
                         for p in PROPS})
     for name, (driver, kw) in drivers(tier).items():
